@@ -175,7 +175,7 @@ const (
 )
 
 // readData read column length and then data from reader
-func (column *ColumnData) readData(reader io.Reader, format base.BoundValueFormat) error {
+func (column *ColumnData) readData(reader *bytes.Reader, format base.BoundValueFormat) error {
 	length := column.Length()
 	if int32(length) == NullColumnValue {
 		column.data = nil
@@ -188,7 +188,7 @@ func (column *ColumnData) readData(reader io.Reader, format base.BoundValueForma
 		return nil
 	}
 	// the declared length comes from the other side: do not reserve more than the message still holds
-	if sized, ok := reader.(interface{ Len() int }); ok && length > sized.Len() {
+	if length > reader.Len() {
 		return ErrPacketTruncated
 	}
 	data := make([]byte, length)
